@@ -97,6 +97,7 @@ type gate struct {
 	inc  int
 	ch   chan string
 	kind string // store | act
+	origin int
 }
 
 type faultSpec struct {
@@ -134,8 +135,9 @@ type Engine struct {
 	exe *mod.DefExecutor
 	par *mod.DefParser
 
-	hung     bool
-	panicked []string
+	hung        bool
+	foreignDiff string
+	panicked    []string
 	alive    int // action phases currently executing in the live incarnation
 	aliveInc int
 }
@@ -166,7 +168,7 @@ func (e *Engine) park(kind, desc string) string {
 	}
 	e.mu.Lock()
 	e.gateSeq++
-	g := &gate{id: e.gateSeq, desc: desc, inc: e.inc, ch: make(chan string), kind: kind}
+	g := &gate{id: e.gateSeq, desc: desc, inc: e.inc, ch: make(chan string), kind: kind, origin: e.origin[curGid()]}
 	e.gates = append(e.gates, g)
 	e.mu.Unlock()
 	return <-g.ch
@@ -328,6 +330,23 @@ func (e *Engine) step(pref func(g *gate) bool) bool {
 	return true
 }
 
+// drive releases only the gates of harness calls of the given origin until none is parked and no
+// such call is in flight any more (everything else stays parked): the call runs "instantly".
+func (e *Engine) drive(origin int) {
+	for i := 0; i < 200; i++ {
+		progressed := e.step(func(g *gate) bool { return g.origin == origin && g.kind == "store" })
+		has := false
+		for _, g := range e.liveGates() {
+			if g.origin == origin && g.kind == "store" {
+				has = true
+			}
+		}
+		if !has || !progressed {
+			return
+		}
+	}
+}
+
 func (e *Engine) aliveRuns() int {
 	e.mu.Lock()
 	defer e.mu.Unlock()
@@ -452,7 +471,7 @@ func (j *jstore) PatchTaskIns(t *entity.TaskInstance) error {
 	for _, tr := range t.Traces {
 		traces = append(traces, nm.Id(tr.Message))
 	}
-	op := L(I(4), I(nm.Id(t.ID)), I(tStatusCode(t.Status)), I(nm.Id(reasonClass(t.Reason))), Ints(traces))
+	op := L(I(4), I(nm.Id(t.ID)), I(tStatusCode(t.Status)), I(reasonCode(t.Reason)), Ints(traces))
 	return j.call("PatchTaskIns:"+t.ID+":"+string(t.Status), op, true, func() (Sx, error) {
 		err := j.real.PatchTaskIns(t)
 		return errReplySx(err), err
@@ -470,7 +489,7 @@ func (j *jstore) PatchDagIns(d *entity.DagInstance, musts ...string) error {
 			mr = true
 		}
 	}
-	op := L(I(5), I(nm.Id(d.ID)), shareSx(d.ShareData, nm), I(iStatusCode(d.Status)), cmdSx(d.Cmd, nm), B(mc), I(nm.Id(d.Worker)), I(nm.Id(reasonClass(d.Reason))), B(mr))
+	op := L(I(5), I(nm.Id(d.ID)), shareSx(d.ShareData, nm), I(iStatusCode(d.Status)), cmdSx(d.Cmd, nm), B(mc), I(nm.Id(d.Worker)), I(reasonCode(d.Reason)), B(mr))
 	desc := "PatchDagIns:" + d.ID + ":" + string(d.Status)
 	if d.ShareData != nil {
 		desc += ":share"
@@ -618,6 +637,11 @@ func (j *jstore) ListTaskInstance(in *mod.ListTaskInstanceInput) ([]*entity.Task
 func (j *jstore) Marshal(obj interface{}) ([]byte, error)    { return j.real.Marshal(obj) }
 func (j *jstore) Unmarshal(b []byte, ptr interface{}) error { return j.real.Unmarshal(b, ptr) }
 
+// reasonCode: fixed codes of the reason classes (0 none, 1 watchdog, 2 success-after-canceled, 3 parent-cancel, 4 other)
+func reasonCode(r string) int {
+	return map[string]int{"": 0, "R:watchdog": 1, "R:success-after-canceled": 2, "R:parent-cancel": 3, "R:other": 4}[reasonClass(r)]
+}
+
 // reasonClass maps free-text reasons to a small set (reasons contain stack traces and ids).
 func reasonClass(r string) string {
 	switch {
@@ -640,11 +664,11 @@ func taskSxR(t *entity.TaskInstance, nm *Namer) Sx {
 		traces = append(traces, nm.Id(tr.Message))
 	}
 	return L(I(nm.Id(t.ID)), I(nm.Id(t.DagInsID)), I(nm.Id(t.TaskID)), strIds(t.DependOn, nm), I(t.TimeoutSecs),
-		I(tStatusCode(t.Status)), I(nm.Id(reasonClass(t.Reason))), Ints(traces), L())
+		I(tStatusCode(t.Status)), I(reasonCode(t.Reason)), Ints(traces), L())
 }
 
 func insSxR(d *entity.DagInstance, nm *Namer) Sx {
-	return L(I(nm.Id(d.ID)), I(nm.Id(d.Worker)), I(iStatusCode(d.Status)), I(nm.Id(reasonClass(d.Reason))), cmdSx(d.Cmd, nm), shareSx(d.ShareData, nm), L())
+	return L(I(nm.Id(d.ID)), I(nm.Id(d.Worker)), I(iStatusCode(d.Status)), I(reasonCode(d.Reason)), cmdSx(d.Cmd, nm), shareSx(d.ShareData, nm), L())
 }
 
 // ---------------------------------------------------------------- scripted actions
